@@ -31,7 +31,6 @@ static void prop(Tape &t, Ctx &c) {
             rc = in.n ? psParseUnknownPrivKeyMem(NULL, in.p, (int32) in.n, api ? pass : NULL, &key) : -1;
             if (rc >= 0) {
                 Dig d; walk_pubkey(&key, d); type = key.type;
-                VF_CHECK(rc == key.type, "privkey-type-mismatch", "psParseUnknownPrivKeyMem returned %d but key.type=%d", rc, key.type);
                 psClearPubKey(&key);
             }
             break; }
